@@ -103,6 +103,25 @@ def gen_case(seed, run, tier):
                 comps[k] = c
     bank = []
     names_used = 0
+    chainy = rs.random() < 0.18 and len(islands) >= 3 and not formula_mode
+    if chainy:
+        # seed reaction inside every island first, then reactions that each join exactly two islands, in random
+        # order: the connected components only emerge through late reactions (transitive fusion of groups)
+        rs.shuffle(islands)
+        for isl in islands:
+            r = _gen_reaction(rw, isl, 1, 0.0, 0.0, False)
+            r.update(eq=False, param=rw.choice([1.0, 2.5]), name=None)
+            bank.append(r)
+        pairs = [(a, b) for a in range(len(islands)) for b in range(a + 1, len(islands))]
+        rw.shuffle(pairs)
+        for a, b in pairs[: rw.randint(1, len(islands))]:
+            ka, kb = rw.choice(islands[a]), rw.choice(islands[b])
+            extra = "Z%d%d" % (a, b)
+            bank.append({"reac": {ka: 1, kb: 1}, "prod": {extra: 1} if rw.random() < 0.5 else {rw.choice(islands[b]): 2},
+                         "inact_reac": {}, "inact_prod": {}, "param": rw.choice([1.0, 4.0]), "name": None, "eq": False})
+        bank = [r for r in bank if any(r["prod"].get(x, 0) - r["reac"].get(x, 0) for x in set(r["reac"]) | set(r["prod"]))]
+        keys = sorted(set(keys) | {k for r in bank for k in list(r["reac"]) + list(r["prod"])})
+        nbank = 0
     for i in range(nbank):
         roll = rw.random()
         if bank and roll < 0.18:  # exact reverse of an earlier reaction that has no reverse yet
@@ -155,6 +174,10 @@ def gen_case(seed, run, tier):
         rx = rw.sample(range(len(bank)), n)
         if rw.random() < 0.7:
             rx = sorted(rx)
+        if chainy and rw.random() < 0.8:
+            rx = list(range(len(bank)))
+            if rw.random() < 0.3:
+                rx = rx[: rw.randint(2, len(rx))]
         used = sorted(set().union(*[mbank.keys(i) for i in rx])) if rx else []
         extra = [k for k in keys if k not in used and rw.random() < 0.25]
         kind = rw.choice(["none", "str", "list", "odict", "set", "objs"] if not formula_mode else ["odict", "objs", "list", "set", "str"])
@@ -171,6 +194,11 @@ def gen_case(seed, run, tier):
             op["sort"] = None  # unsorted iteration of a set is unspecified (hash order)
         if kind in ("str", "list") and len(ks) < 2:
             op["subs"]["kind"] = "odict"
+        if live and rw.random() < 0.12:
+            # build the new system on the very substances mapping of an existing one (as chempy itself does in
+            # categorize_substances): the two systems then share it
+            op["share_with"] = rw.choice(list(live))
+            op["fault"] = None
         if rf.random() < fault_rate:
             f = rf.choice(["factory_raise", "iter_raise", "unknown_key", "junk"])
             if f == "factory_raise" and kind in ("str", "list", "set") and ks:
@@ -250,6 +278,7 @@ def gen_case(seed, run, tier):
             op = {"id": oid, "op": kind, "a": a}
             if kind == "categorize":
                 op["checks"] = rw.choice(["default", "none", "none"]) if not formula_mode else rw.choice(["nobalance", "none"])
+                op["sort_kw"] = rw.random() < 0.3
             elif kind in ("participation", "effect", "index"):
                 op["key"] = rw.choice(keys + ["Zz"])
             elif kind == "array":
@@ -349,7 +378,8 @@ def execute(case):
                 klass = "failed_op_mutated" if failed else "live_system_diverged"
                 viols.append(core.violation(klass, "%s after %s: reactions %s substances %s, model says %s %s" % (
                     sid, opname, orx, osubs, rx, subs), {"op": opname}, idx))
-                live[sid][1], live[sid][2] = orx, osubs  # resynchronise: report once
+                live[sid][1] = orx  # resynchronise: report once
+                live[sid][2][:] = osubs
         for n, (lst, snap) in enumerate(caller_lists):
             if [id(x) for x in lst] != snap:
                 ok = False
@@ -454,18 +484,26 @@ def execute(case):
                 sarg, exp_subs, sorts = OrderedDict((k, mk_substance(k)) for k in ks), ks, False
             else:  # objs
                 sarg, exp_subs, sorts = [mk_substance(k) for k in ks], ks, False
+            shared_list = None
+            if op.get("share_with") in live:
+                S = live[op["share_with"]]
+                sarg, exp_subs, sorts, sk = S[0].substances, S[2], False, "shared"
+                shared_list = S[2]
             if op.get("sort") is not None and not (sk in ("none", "set") and op["sort"] is False):
                 sorts = op["sort"]
-            if op.get("missing"):
+            if op.get("missing") and shared_list is None:
                 missing = sorted(set().union(*[mb.keys(i) for i in rx]) - set(exp_subs)) if rx else []
                 exp_subs = list(exp_subs) + missing
             if sorts:
                 exp_subs = sorted(exp_subs)
+                shared_list = None  # sorting rebinds the new system to a fresh mapping
             kw = dict(_checks_kwargs(op["checks"]))
             if op.get("sort") is not None and not (sk in ("none", "set") and op["sort"] is False):
                 kw["sort_substances"] = op["sort"]
-            if op.get("missing"):
+            if op.get("missing") and op.get("share_with") not in live:
                 kw["missing_substances_from_keys"] = True
+            caller_od = sarg if sk == "odict" else None
+            caller_od_order = list(sarg.keys()) if sk == "odict" else None
             rxarg = [robjs[i] for i in rx]
             caller_lists.append((rxarg, [id(x) for x in rxarg]))
             if fault.get("kind") == "iter_raise":
@@ -486,7 +524,10 @@ def execute(case):
                 # accepted although a documented constructor check should have refused
                 viols.append(core.violation("accepted_invalid", "constructor accepted content failing checks %s" % sorted(bad),
                                             {"op": kind, "why": sorted(bad)}, idx))
-            live["s%d" % oid] = [obj, rx, list(exp_subs)]
+            live["s%d" % oid] = [obj, rx, shared_list if shared_list is not None else list(exp_subs)]
+            if caller_od is not None and [k for k in caller_od.keys() if k in caller_od_order] != caller_od_order:
+                viols.append(core.violation("caller_mapping_reordered", "the OrderedDict handed to the constructor was reordered: %s -> %s" % (
+                    caller_od_order, list(caller_od.keys())), {"op": kind}, idx))
             rec["outcome"] = "ok"
             rec["result"] = [rx, list(exp_subs)]
             states.add((kind, "ok", sk, op["checks"], min(len(rx), 5), len(M.components(mb, rx))))
@@ -512,7 +553,8 @@ def execute(case):
             else:
                 if out is not A[0]:
                     viols.append(core.violation("iadd_identity", "+= returned a different object", {"op": kind}, idx))
-                A[1], A[2] = exp_rx, exp_subs
+                A[1] = exp_rx
+                A[2][:] = exp_subs  # in place: systems sharing the mapping see the new substances too
             rec["outcome"] = "ok"
             rec["result"] = [exp_rx, exp_subs]
             states.add((kind, "ok", min(len(exp_rx), 6), op["a"] == op["b"], bool(set(A[2]) & set(B[2]))))
@@ -638,10 +680,11 @@ def execute(case):
                 no = [i for i in O[1] if any(mb.same_stoich(i, j) for j in sum_rx)]
                 ty = set().union(*[mb.keys(i) for i in yes]) if yes else set()
                 tn = set().union(*[mb.keys(i) for i in no]) if no else set()
+                osubs_now = list(sum_subs) if O[2] is A[2] else list(O[2])  # an operand may share the first one's mapping
                 sum_rx = sum_rx + yes
-                sum_subs = M.ordered_union(sum_subs, [k for k in O[2] if k in ty])
+                sum_subs = M.ordered_union(sum_subs, [k for k in osubs_now if k in ty])
                 skip_rx = skip_rx + no
-                skip_subs = M.ordered_union(skip_subs, [k for k in O[2] if k in tn])
+                skip_subs = M.ordered_union(skip_subs, [k for k in osubs_now if k in tn])
             exp_sum, exp_skip = [sum_rx, sum_subs], [skip_rx, skip_subs]
             try:
                 summed, skipped = ReactionSystem.concatenate([A[0]] + [live[x][0] for x in others])
@@ -649,7 +692,8 @@ def execute(case):
                 refused(rec, idx, kind, ex, False)
                 continue
             del live[op["a"]]  # first argument is retired: whether it is mutated is unspecified
-            live["s%d.0" % oid] = [summed, exp_sum[0], exp_sum[1]]
+            A[2][:] = exp_sum[1]  # ... but its substances mapping is updated in place, which systems sharing it observe
+            live["s%d.0" % oid] = [summed, exp_sum[0], A[2]]
             live["s%d.1" % oid] = [skipped, exp_skip[0], exp_skip[1]]
             rec["outcome"] = "ok"
             rec["result"] = [exp_sum, exp_skip]
@@ -680,7 +724,7 @@ def execute(case):
             k = op["key"]
             A[0].substances[k] = mk_substance(k) if k in keys else Substance(k, composition={} if comps is not None else None)
             if k not in A[2]:
-                A[2] = A[2] + [k]
+                A[2].append(k)
             rec["outcome"], rec["result"] = "ok", list(A[2])
             states.add((kind, "ok", k in keys))
             check_all(idx, kind)
@@ -702,8 +746,11 @@ def execute(case):
             expect = True if bad else False
             if ("balance" in checks and comps is not None) or "duplicate_names" in checks:
                 expect = None if not bad else True  # names of expanded equilibria: unspecified
+            ckw = dict(_checks_kwargs(op["checks"]))
+            if op.get("sort_kw"):
+                ckw["sort_substances"] = True
             try:
-                cat = obj.categorize_substances(**_checks_kwargs(op["checks"]))
+                cat = obj.categorize_substances(**ckw)
             except Exception as ex:
                 refused(rec, idx, kind, ex, expect, {"why": sorted(bad)})
                 continue
